@@ -61,6 +61,16 @@ def main():
                 if tc.find("failure") is not None or tc.find("error") is not None:
                     fails.append(f"{tc.get('classname')}::{tc.get('name')}")
             os.unlink(jx)
+            # timing-sensitive tests fail under CPU load: re-run unexpected failures on their own
+            retry = [f for f in fails if f not in TOLERATED]
+            for f in list(retry):
+                mod, name = f.split("::", 1)
+                path = mod.replace(".", "/") + ".py"
+                for _ in range(2):
+                    r2 = subprocess.run(f"cd {wt} && /venv/bin/python -m pytest -q -p no:cacheprovider --timeout=900 '{path}::{name}'", shell=True, env=env, capture_output=True, text=True, timeout=900)
+                    if r2.returncode == 0:
+                        fails.remove(f)
+                        break
             out["suite_failures_with_patch"] = fails
             out["suite_ok"] = all(f in TOLERATED for f in fails)
             out["confirmed"] = bool(out["demo_unpatched_rc"] == 0 and out["demo_patched_rc"] != 0 and out["suite_ok"])
